@@ -15,7 +15,8 @@ na = []
 for p in props:
     pid = p["id"]
     path = os.path.join(HERE, "checks", pid.lower() + ".py")
-    if not os.path.exists(path):
+    reg = open(os.path.join(HERE, "checks", "REGISTERED")).read().split()
+    if not os.path.exists(path) or pid not in reg:
         na.append({"property_id": pid, "reason": "check not built yet in this round (runtime monitor designed in DESIGN.md section 4, not implemented)"})
         continue
     src = open(path).read()
